@@ -39,8 +39,13 @@ func (C05) Gen(r *simrt.RNG, tier string) core.Case {
 	cfg := world.SwarmCfg(r)
 	cfg.Gens = false
 	cfg.MaxConvs = 2 + r.Intn(6)
-	cfg.MultiIn = r.Chance(1, 3)
-	cfg.Distractors = true
+	cfg.MultiIn = r.Chance(1, 2)
+	cfg.Distractors = !cfg.MultiIn // class (b) wants no accidental cycles
+	cfg.MultiHeavy = cfg.MultiIn
+	if cfg.MultiIn {
+		cfg.MaxTypes = 8 + r.Intn(4) // a wide type universe keeps accidental dependency cycles rare
+		cfg.Ifaces = false
+	}
 	w := world.GenPlanned(r, cfg)
 	if r.Chance(1, 5) {
 		breakWorld(r, &w)
